@@ -153,7 +153,7 @@ class SymScreen:
         tk = []
         for i in range(tabstops):
             k = ctx.bvvar('tab_k%d' % i, 32)
-            ctx.assume(z3.ULE(k, 150))
+            ctx.assume(z3.ULE(k, max(150, geom_max[0] + 10)))
             for o in tk:
                 ctx.assume(k != o)
             tk.append(k)
@@ -265,7 +265,7 @@ class SymScreen:
         cf = [None] * len(L.cursor)
         x = ctx.bvvar(name + '_x', 32)
         y = ctx.bvvar(name + '_y', 32)
-        ctx.assume(z3.And(z3.ULE(x, 200), z3.ULE(y, 200)))
+        ctx.assume(z3.And(z3.ULE(x, 400), z3.ULE(y, 400)))
         cf[L.cursor['x']] = Int('u32', x)
         cf[L.cursor['y']] = Int('u32', y)
         cf[L.cursor['hidden']] = ctx.boolvar(name + '_hidden')
